@@ -25,7 +25,7 @@ add("C12", "proof",
 
 add("C13", "proof",
     "Contracts on the real packers/unpackers (polyEta/T1/T0/Z/W1 Pack and Unpack), key layouts (packPk/unpackPk/packSk/unpackSk) and unpackSig: each states the FIPS 204 bit-packing relation 'packed bytes read as a little-endian integer = coefficient offsets read as base-2^b digits' per block, for every value in range and every block position (symbolic block index), plus lemmas that in-range digits are unique (unpack(pack(v)) = v, pack(unpack(b)) = b) and unpackSig accepts exactly the canonical hint encodings. Discharged for all inputs.",
-    "Not yet under contract: packSig and the hint-vector round trip (weight <= omega) and the decoded-hint characterisation of unpackSig; they are listed as not covered in DESIGN.md. Trusted: govc, solvers, spec reading of FIPS 204 algorithms 16-21.",
+    "packSig is under contract for safety, the z/challenge layout and the hint-weight accounting (k = number of non-zero hint coefficients <= omega); the decoded-hint characterisation of unpackSig (which positions become 1) and the hint-vector round trip are not yet discharged (DESIGN.md). Trusted: govc, solvers, spec reading of FIPS 204 algorithms 16-21.",
     "contract-based deductive verification: VCs from the typed Go AST of /repo, exact machine-integer encoding with arithmetic bit-operation identities, z3/cvc5",
     "DESIGN.md section 4 C13")
 add("C14", "proof",
@@ -81,7 +81,7 @@ add("C05", "proof",
 
 add("C04", "proof",
     "Contracts on the real Verify / VerifyWithCustomWOTSParamW / xmssVerifySig: acceptance implies a supported hash id (0..2), a height field consistent with the signature length (len = 2180 + 32h, h = 2*(pk[1]&15) >= 4), and equals xmssVerifySig on exactly (hash id, WOTS parameters for w, message, signature, pk[3:67], h); xmssVerifySig accepts iff all 32 bytes of the recomputed root equal pk[0:32] (and the message fits the 32-bit length arithmetic), with the index read big-endian from sig[0:4], the message-hash key R || root || toByte(idx,32) built from sig[4:36] and the key's root, OTS/L-tree/node addresses (type 0/1/2, index idx), public seed pk[32:64], and the authentication path taken at offset 36 + keySize. The check found that a public key naming hash id 3..15 with a zero root was accepted for any message (fixed, known_findings.json).",
-    "Collision-type claims ('any flipped bit is rejected') are not claimed. The argument wiring of the three sub-computations is pinned through `exit` clauses over the function's locals and `pure` abstractions of the callees (purity by the effects back end); their internal recursive structure is covered by C06's hash-construction contracts and bounded reference run, not by a recursive specification.",
+    "Collision-type claims ('any flipped bit is rejected') are not claimed. The argument wiring of the sub-computations is pinned through `exit` clauses over the function's locals and `pure` abstractions of the callees (purity by the effects back end). validateAuthPath carries a full functional contract: its output is the Merkle fold of RFC 8391 Algorithm 13 (recursive specification function `fold` in spec/00_core.smt2) of the leaf, the index and the authentication path, proved with loop invariants and congruence lemmas. The WOTS chains and the L-tree are covered by C06's hash-construction contracts and bounded reference run, not by a recursive specification.",
     "contract-based deductive verification: functional contracts and internal postconditions on the real verification code with uninterpreted hashes, z3/cvc5; purity by go/ssa effects analysis",
     "DESIGN.md section 4 C04")
 add("C06", "other",
@@ -95,6 +95,17 @@ add("C10", "proof",
     "Strings are abstract (sort Str): fmt.Fprint/bytes.Buffer, strings.Split/Join and map semantics are assumed (T5, spec/20_strings.smt2). Spacing/case strictness is derived from the token-level refusal under those assumptions, not proved on bytes.",
     "contract-based deductive verification with loop invariants over the 12-bit group view, lemma functions for the round trips, exhaustive table check of the word list",
     "DESIGN.md section 4 C10")
+
+add("C07", "other",
+    "Deductive (all inputs): the signer cryptoSignSignature is verified for safety and ranges on every path of its rejection loop and `after` assertions pin the specification's acceptance conditions with exact bounds (||z|| < gamma1-beta, ||LowBits(w-cs2)|| < gamma2-beta, ||ct0|| < gamma2, hint weight <= omega, canonical z encoding); arithmetic components equal their specification functions (C12), encodings lossless and canonical (C13); cryptoSign is a function of (message, key) and re-signing after other calls gives the identical signature (effects back end + lemma function verifLemmaSignAgain). Bounded (labelled): byte identity of public key, secret key and deterministic signature with an independent specification-level implementation (schoolbook arithmetic mod q, NTT-domain matrix inverted by direct interpolation) on VERIF_SEED-derived seeds and messages for a fixed time budget, with boundary cases recognised and counted.",
+    "Level 'other' = proved components + bounded whole-object comparison. Not under functional contract: sampler outputs as functions of the XOF stream, NTT-domain product = ring product beyond C12's table checks, composition into whole-key/whole-signature equality. Termination of rejection loops assumed.",
+    "contract-based deductive verification of the real signer (safety, exact rejection bounds as anchored assertions, purity); bounded differential run against an independent specification-level implementation, labelled bounded",
+    "DESIGN.md section 4 C07")
+add("C03", "other",
+    "Deductive (all inputs): framing lemma functions over the real Seal/Sign/Open/Extract code (Seal(m) = Sign(m)||m; ExtractSignature/ExtractMessage return exactly those parts; Open(Seal(m)) = m exactly when Verify(m, Sign(m)) holds); signer-side acceptance conditions with exact bounds (C07) and the coefficient-level hint lemmas (UseHint(MakeHint(z,r),r) = HighBits(r+z); the library's hint code equals MakeHint under the signer's norm conditions). Bounded (labelled): Verify(m, Sign(m), pk) on whole signatures for VERIF_SEED-derived seeds and message lengths 0..5000 (real signer and verifier plus an independent specification-level verifier), counting rejection-loop iterations of each kind.",
+    "Level 'other': the ring identity that makes verification recompute the signer's w1 (Az - c*t1*2^d = w - c*s2 + c*t0 over NTT-domain arithmetic) is not mechanised; whole-signature sign->verify is a bounded run.",
+    "contract-based deductive verification (lemma functions for framing, anchored assertions in the signer, coefficient lemmas); bounded run of the real signer/verifier as labelled stand-in for the ring-algebra step",
+    "DESIGN.md section 4 C03")
 
 reasons = {}
 for p in ALL:
@@ -118,7 +129,7 @@ m = {
 }
 import subprocess
 try:
-    m["hooks"]["source_commits"] = subprocess.check_output(["git","-C","/repo","log","--format=%H","--grep=^verif:"],text=True).split()
+    m["hooks"]["source_commits"] = subprocess.check_output(["git","-C","/repo","log","--format=%H","--grep=^verif"],text=True).split()
 except Exception: pass
 json.dump(m, open("/verif/MANIFEST.json","w"), indent=1)
 print("checks:", sorted(checks), "n/a:", sorted(reasons))
